@@ -242,7 +242,7 @@ def narrow_shifts(facts, unit_file):
 CARRY_STEPS = ("xxPlusStep", "xxTimesStep")
 
 
-def carry_steps(rep):
+def carry_steps(rep, rule="B8"):
     """Word addition with carry (the steps the big-integer and double-word builtins are built from): the carry out of
     r = x + y (mod B) is r < x (equivalently r < y) and is only valid for a two-term sum; each sum that ends up in the result word
     is followed by its carry test before the next sum."""
@@ -271,11 +271,11 @@ def carry_steps(rep):
                 n += 1
                 key = "carry:%s:sum@%d" % (name, n)
                 if pending is not None and lhs["n"] == word:
-                    rep.violation("B8", key, where(st), "the sum `%s` replaces %s before the carry of the previous sum (%s) was taken: "
+                    rep.violation(rule, key, where(st), "the sum `%s` replaces %s before the carry of the previous sum (%s) was taken: "
                                   "a carry is lost" % (common.render(st)[:50], word, " + ".join(pending)))
                     bad = True
                 if len(terms) != 2:
-                    rep.violation("B8", key, where(st), "`%s` adds %d terms modulo the word base in one step: the following test "
+                    rep.violation(rule, key, where(st), "`%s` adds %d terms modulo the word base in one step: the following test "
                                   "`r < x` detects the carry of a two-term sum only (x + (B-1) + 1 wraps to x and reports no carry), "
                                   "so the multi-word result is wrong for operands with an all-ones word" % (common.render(st)[:50], len(terms)))
                     bad = True
@@ -286,17 +286,17 @@ def carry_steps(rep):
                 a, b = common.render(common.strip(cmp_["c"][0])), common.render(common.strip(cmp_["c"][1]))
                 key = "carry:%s:test@%d" % (name, st["l"])
                 if pending is None or a != word or b not in pending or b == word and pending.count(word) < 1:
-                    rep.violation("B8", "carry:%s:test" % name, where(st), "the carry test `%s` does not compare the sum with one of the "
+                    rep.violation(rule, "carry:%s:test" % name, where(st), "the carry test `%s` does not compare the sum with one of the "
                                   "two terms just added (%s)" % (common.render(cmp_), pending))
                     bad = True
                 pending = None
                 continue
             if st["op"] == "=" and lhs["k"] == "UnaryOperator" and common.render(lhs) == "*pr" and pending is not None:
-                rep.violation("B8", "carry:%s:stored" % name, where(st), "the result word is stored while the carry of its last sum (%s) "
+                rep.violation(rule, "carry:%s:stored" % name, where(st), "the result word is stored while the carry of its last sum (%s) "
                               "has not been taken" % " + ".join(pending))
                 bad = True
         if not bad:
-            rep.ok("B8", "carry:%s" % name)
+            rep.ok(rule, "carry:%s" % name)
     rep.floor("word sums in the carry steps", n, 3)
 
 
